@@ -111,6 +111,8 @@ Proof.
   assert (Hfront : named T (n_type n) = true -> pos = O ->
     forall s rest sn, n_content n = CElem d :: CElem s :: rest -> w_nodes w s = Some sn -> n_name sn <> SHORTN).
   { intros Hnm _ s rest sn Hc Hs. eapply (HL pi n O s sn); eauto. rewrite Hc. reflexivity. }
+  assert (HR2 : (forall p j, In (p, j) R -> reach T w d j) /\ (forall p j, reach T w d j -> ref_text T w j = Some p -> In (p, j) R)).
+  { split; [intros p j HinR; apply HR in HinR; tauto|intros p j Hd Ht; apply HR; auto]. }
   split; [eapply removed_treefacts with (h := pi) (sub := d) (n := n) (pos := pos) (m := m) (x := x) (K := K) (R := R); eauto|].
   split; [eapply (removed_inv04 T check_fn w w' pi d n pos m x pp K R); eauto|].
   split; [eapply removed_nolate with (h := pi) (sub := d) (n := n) (pos := pos); eauto|].
